@@ -37,6 +37,7 @@ def gen_behind(rng, tier, i):
     sc = Scenario(rng)
     sc.net["chaos"] = {}
     sc.net["spawn_yield"] = rng.choice([0, 300])
+    sc.net["lock_yield"] = rng.choice([0, 0, 300])   # seeded scheduling points at the asynchronous locks
     sc.cfg["timeouts"] = {"idle": 600}
     kind = rng.choice(["quic", "quic", "http", "socks"])
     li = sc.add_http_listener("l")
@@ -95,6 +96,7 @@ def gen(rng, tier, i):
         chaos["capacity"] = 1 << 20
     sc.net["chaos"] = chaos
     sc.net["spawn_yield"] = rng.choice([0, 300])
+    sc.net["lock_yield"] = rng.choice([0, 0, 300])   # seeded scheduling points at the asynchronous locks
     sc.cfg["timeouts"] = {"idle": 20}
     kind = wchoice(rng, KINDS)
     if tier == "quick" and kind == "quic" and rng.random() < 0.3:
